@@ -230,6 +230,16 @@ OBSERVERS['split'] = lambda m: [str(x) for x in m.split()]
 for _name, _meth in (('remove_metals_log', 'remove_metals'), ('remove_acids_log', 'remove_acids'),
                      ('split_metal_salts_log', 'split_metal_salts')):
     OBSERVERS[_name] = (lambda meth: lambda m, warm=False: _log_on_copy_late(m, meth, warm))(_meth)
+def _rxn_keep_reagents(r, warm=False, mapping=True):
+    c = r.copy()
+    if warm:
+        str(c)
+    res = c.remove_reagents(keep_reagents=True, mapping=mapping)
+    return [res, [str(m) for m in c.reactants], [str(m) for m in c.reagents], [str(m) for m in c.products], format(c, 'm')]
+
+
+OBSERVERS['rxn_keep_reagents'] = _rxn_keep_reagents
+OBSERVERS['rxn_keep_reagents_rules'] = lambda r, warm=False: _rxn_keep_reagents(r, warm, False)
 for _name, _meth in (('rxn_remove_reagents', 'remove_reagents'), ('rxn_contract_ions', 'contract_ions'),
                      ('rxn_fix_mapping', 'fix_mapping'), ('rxn_fix_groups_mapping', 'fix_groups_mapping')):
     OBSERVERS[_name] = (lambda meth: lambda r, warm=False: _rxn_on_copy(r, meth, warm))(_meth)
@@ -246,7 +256,7 @@ for _name, _meth in (('canonicalize_log', 'canonicalize'), ('standardize_log', '
 for _name, _meth in (('rxn_canonicalize_log', 'canonicalize'), ('rxn_standardize_log', 'standardize')):
     OBSERVERS[_name] = (lambda meth: lambda m, warm=False: _log_on_copy(m, meth, warm))(_meth)
 
-WARMABLE = {'remove_metals_log', 'remove_acids_log', 'split_metal_salts_log', 'rxn_remove_reagents', 'rxn_contract_ions',
+WARMABLE = {'rxn_keep_reagents', 'rxn_keep_reagents_rules', 'remove_metals_log', 'remove_acids_log', 'split_metal_salts_log', 'rxn_remove_reagents', 'rxn_contract_ions',
             'rxn_fix_mapping', 'rxn_fix_groups_mapping', 'canonicalize_log', 'standardize_log', 'neutralize_log', 'standardize_charges_log', 'fix_resonance_log',
             'implicify_hydrogens_log', 'rxn_canonicalize_log', 'rxn_standardize_log','canonicalize', 'standardize', 'neutralize', 'kekule', 'thiele', 'clean_stereo', 'clean_isotopes',
             'implicify_hydrogens', 'explicify_hydrogens', 'rxn_canonicalize', 'rxn_standardize', 'rxn_kekule', 'rxn_thiele',
